@@ -180,6 +180,21 @@ def check_grain(g, rec=None):
                 fails.append(fail("cache", "grain.%s stale after set_ubi" % name, route="grain.set_ubi"))
     if not np.array_equal(np.asarray(ubi), ubi_before):
         fails.append(fail("inputs", "one of the routes modified the UBI matrix it was given", route="inputs"))
+    # a grain owns its matrix: the caller's array (a work buffer, a row of a table of UBIs) may be overwritten later
+    src = np.array(ubi_before, float)
+    ok, g3 = guard(grainmod.grain, src)
+    if ok:
+        _ = (g3.UB, g3.U, g3.B, g3.unitcell, g3.mt)
+        src *= 1.37
+        src[0, 1] += 0.25
+        if not np.array_equal(np.asarray(g3.ubi), ubi_before) or not close(g3.UB @ np.asarray(g3.ubi), np.eye(3)):
+            fails.append(fail("alias", "a grain built from an array changes when the caller later writes into that "
+                              "array (ubi and the cached UB/U/B no longer belong together)", route="grain(ndarray)"))
+        src2 = np.array(ubi_before, float)
+        g3.set_ubi(src2)
+        src2 *= 0.5
+        if not np.array_equal(np.asarray(g3.ubi), ubi_before):
+            fails.append(fail("alias", "grain.set_ubi keeps a reference to the caller's array", route="set_ubi(ndarray)"))
     if rec is not None:
         oblique = any(abs(x - 90) > 1e-9 for x in g["cell"][3:])
         nt = oblique and not np.allclose(U, np.eye(3))
